@@ -84,6 +84,8 @@ func (c19) Generate(r *sim.Rand, tier string) *sim.Scenario {
 				st.F = append(st.F, c19enc(c19Labels[r.Intn(nlabels)]))
 			}
 			sc.Steps = append(sc.Steps, st)
+		case r.Bool(0.12):
+			sc.Steps = append(sc.Steps, sim.Step{C: c, Op: "again", Out: -1})
 		case r.Bool(0.25):
 			sc.Steps = append(sc.Steps, sim.Step{C: c, Op: "result", Out: -1})
 		default:
@@ -220,6 +222,11 @@ func (c19) execOne(sc *sim.Scenario) *sim.Outcome {
 	allP := make([][]float64, ninst)
 	allT := make([][]float64, ninst)
 	batches := make([][]int, ninst)
+	type lastCall struct {
+		yp, yt tensor.Tensor
+		p, t   []float64 // data when the pair was valid, nil otherwise
+	}
+	last := make([]*lastCall, ninst)
 	for i := range inst {
 		inst[i] = metrics.NewAccuracy()
 	}
@@ -269,7 +276,9 @@ func (c19) execOne(sc *sim.Scenario) *sim.Outcome {
 				return out
 			}
 			yp, yt := c19dec(s.F[:n]), c19dec(s.F[n:2*n])
-			err := inst[c].Accumulate(vec(yp, s.B), vec(yt, false))
+			tp, tt := vec(yp, s.B), vec(yt, false)
+			last[c] = &lastCall{tp, tt, yp, yt}
+			err := inst[c].Accumulate(tp, tt)
 			if err != nil {
 				out.Fail("valid-call-rejected", "%s: Accumulate of two [%d] tensors returned error: %v", where, n, err)
 				return finish(out, lh, sig, start)
@@ -287,6 +296,43 @@ func (c19) execOne(sc *sim.Scenario) *sim.Outcome {
 				rejectedBetween = true
 			}
 			accepted[c]++
+			if !checkResult(c, where) {
+				return finish(out, lh, sig, start)
+			}
+		case "again":
+			// the very same tensor objects of this instance's previous call are submitted once more
+			lc := last[c]
+			if lc == nil {
+				break
+			}
+			out.Faults["resubmit-same-objects"]++
+			before := sim.DeepFPAny(inst[c])
+			err := inst[c].Accumulate(lc.yp, lc.yt)
+			if lc.p == nil {
+				if err == nil {
+					out.Fail("invalid-call-accepted", "%s: the same invalid pair of tensor objects, submitted a second time, returned no error", where)
+					return finish(out, lh, sig, start)
+				}
+				if sim.DeepFPAny(inst[c]) != before {
+					out.Fail("rejected-call-changed-state", "%s: rejected re-submission changed the metric's state", where)
+					return finish(out, lh, sig, start)
+				}
+			} else {
+				if err != nil {
+					out.Fail("valid-call-rejected", "%s: the same valid pair of tensor objects, submitted a second time, returned error: %v", where, err)
+					return finish(out, lh, sig, start)
+				}
+				mod[c].total += len(lc.p)
+				for i := range lc.p {
+					if lc.p[i] == lc.t[i] {
+						mod[c].correct++
+					}
+				}
+				allP[c] = append(allP[c], lc.p...)
+				allT[c] = append(allT[c], lc.t...)
+				batches[c] = append(batches[c], len(lc.p))
+				accepted[c]++
+			}
 			if !checkResult(c, where) {
 				return finish(out, lh, sig, start)
 			}
@@ -317,6 +363,7 @@ func (c19) execOne(sc *sim.Scenario) *sim.Outcome {
 				return out
 			}
 			before := sim.DeepFPAny(inst[c])
+			last[c] = &lastCall{yp: yp, yt: yt}
 			err := inst[c].Accumulate(yp, yt)
 			out.Faults["invalid-call/"+s.Tag]++
 			if err == nil {
